@@ -140,6 +140,18 @@ def atom_series(atom, var, x0, N, memo):
         for j in range(1, N):
             pw = pw * v
             r = r + pw.scale(Fraction(1, j * j))
+    elif isinstance(atom, tuple) and atom[0] == "FN" and atom[1] == "f_PS" and len(atom[2]) == 1:
+        v, sh = rat_series(ARGS[atom[2][0]], var, x0, N, memo)
+        if sh != 0 or not v.c[0].is_const() or v.c[0].const_value() != Fraction(1, 4):
+            raise SeriesError("f_PS can only be expanded around argument 1/4")
+        sser = Ser([ZERO] + v.c[1:], N)                 # s = arg - 1/4
+        a = fps_quarter_coeffs(N)
+        r = Ser([], N)
+        pw = Ser.const(1, N)
+        for j in range(N):
+            if j:
+                pw = pw * sser
+            r = r + Ser([c * a[j] for c in pw.c], N)
     elif isinstance(atom, tuple) and atom[0] in ("const", "sqrtQ") or (isinstance(atom, tuple) and atom[0] == "LOG"):
         r = Ser.const(Poly.atom(atom), N)
     elif isinstance(atom, tuple) and atom[0] == "sym":
@@ -174,3 +186,97 @@ def taylor(r, var, x0, N):
     if sh < 0:
         raise SeriesError("closed form has a pole of order %d at %s = %s" % (-sh, var, x0))
     return s.c
+
+
+def fps_quarter_coeffs(N):
+    """Taylor coefficients of f_PS at z = 1/4 (Poly over log 2), from the differential equation
+         z (4z - 1) f'(z) = (2z - 1) f(z) - 2 z log z,
+    which is what ffunctions.m states when it gives FPZ[x,x] = -2x(fPS[x] + Log[x])/(4x - 1) as the y -> x
+    limit  x f'(x) - f(x)  of FPZ[x,y] = (y fPS[x] - x fPS[y])/(x - y).  Analyticity at 1/4 fixes f(1/4) = 2 log 2."""
+    from .closedform import LOG
+    L2 = Poly.atom(LOG("2"))
+    # g(t) = 2 (1/4 + t) log(1/4 + t),  log(1/4 + t) = -2 log 2 + sum_{k>=1} (-1)^{k+1} (4t)^k / k
+    lg = [L2.scale(-2)] + [Poly.const(Fraction((-1) ** (k + 1) * 4 ** k, k)) for k in range(1, N + 1)]
+    g = []
+    for n in range(N + 1):
+        c = lg[n].scale(Fraction(1, 2))
+        if n >= 1:
+            c = c + lg[n - 1].scale(2)
+        g.append(c)
+    a = [g[0].scale(-2)]
+    for n in range(1, N):
+        rhs = a[n - 1].scale(2 - 4 * (n - 1)) - g[n]
+        a.append(rhs.scale(1 / (Fraction(n) + Fraction(1, 2))))
+    return a
+
+
+# ---- expansions for z -> infinity -------------------------------------------------------------------
+
+LZ = ("LOGZ",)      # log z, a formal constant of the expansion in u = 1/z
+
+
+def fps_infinity_coeffs(N):
+    """f_PS(z) = sum_n (p_n + q_n log z) z^-n for z -> infinity, from the same differential equation
+    z(4z-1) f' = (2z-1) f - 2z log z:  q_0 = 1, p_0 = 2, q_m = m q_{m-1}/(4m+2), p_m = (4 q_m - q_{m-1} + m p_{m-1})/(4m+2)"""
+    q, p = [Fraction(1)], [Fraction(2)]
+    for m in range(1, N):
+        qm = m * q[m - 1] / (4 * m + 2)
+        pm = (4 * qm - q[m - 1] + m * p[m - 1]) / (4 * m + 2)
+        q.append(qm)
+        p.append(pm)
+    return [Poly.const(p[n]) + Poly.atom(LZ).scale(q[n]) for n in range(N)]
+
+
+def asymptotic(r, var, N):
+    """(coeffs, shift): r = z^(-shift) * sum_n coeffs[n] z^-n  for z = var -> infinity; coefficients are Poly over
+    log z (atom LZ) and constants.  Atoms allowed: z, LOG(z), f_PS(z), constants."""
+    from .closedform import key as ckey
+    z = ("sym", var)
+    U = ("sym", "__u")
+    kz = ckey(Rat(Poly.atom(z)))
+    memo = {}
+    M = N + 10
+    useries = Ser([ZERO, ONE], M)
+
+    def atom_ser(a):
+        """(series in u, shift)"""
+        if a == z:
+            return Ser.const(1, M), -1
+        if isinstance(a, tuple) and a[0] == "LOG" and a[1] == kz:
+            return Ser.const(Poly.atom(LZ), M), 0
+        if isinstance(a, tuple) and a[0] == "FN" and a[1] == "f_PS" and a[2] == (kz,):
+            return Ser(fps_infinity_coeffs(M), M), 0
+        if isinstance(a, tuple) and a[0] in ("LOG", "LI2", "FN", "SQRT") and isinstance(a[1], tuple):
+            if a[0] in ("LOG", "LI2") and not _mentions(ARGS[a[1]], var):
+                return Ser.const(Poly.atom(a), M), 0
+            raise SeriesError("no expansion at infinity for %s" % (a,))
+        return Ser.const(Poly.atom(a), M), 0
+
+    def poly_ser(p):
+        """sum of (series, shift) with a common shift"""
+        terms = []
+        for m, c in p.t.items():
+            s_, sh = Ser.const(Poly.const(c), M), 0
+            for a, e in m:
+                sa, sha = atom_ser(a)
+                s_ = s_ * sa.pow(e)
+                sh += sha * e
+            terms.append((s_, sh))
+        if not terms:
+            return Ser([], M), 0
+        lo = min(sh for _, sh in terms)
+        tot = Ser([], M)
+        for s_, sh in terms:
+            tot = tot + Ser([ZERO] * (sh - lo) + s_.c, M)
+        return tot, lo
+
+    n, shn = poly_ser(r.n)
+    d, shd = poly_ser(r.d)
+    vn, vd = n.val(), d.val()
+    if vd is None:
+        raise SeriesError("denominator vanishes at infinity to the computed order")
+    if vn is None:
+        return [ZERO] * N, 0
+    q = n.shift(vn) * d.shift(vd).inv()
+    shift = (shn + vn) - (shd + vd)          # r = u^shift * q(u)
+    return q.c[:N], shift
